@@ -18,9 +18,19 @@
      (3 (l bytes) (pre bytes) label)   bmr.Label methods on their own
          -> (l.ToOT(), pre.FromOT(label), l.Mul(0), l.Mul(1), l.Xor(pre))
      (5 (m...))                  traffic of one Mul of m elements, per m
-         -> ((receiver bytes, sender bytes, (byteRows per IKNP chunk...))...)  *)
+         -> ((receiver bytes, sender bytes, (byteRows per IKNP chunk...))...)
+     (6 mode Delta ((g0 column bytes...) x128) ((g1 column bytes...) x128)
+        (labels...) (pads...) ((p (xs...) (ys...))...))
+         a whole HISTORY of Mul calls on one Sender/Receiver pair from the
+         start of the session (OT/VoleHist.v): the model is given only the
+         pair's IKNP set-up — the receiver's 128 column key streams (AES-CTR of
+         the base-OT wires' L0 / L1) and the sender's Delta — and the calls;
+         it runs the IKNP model for every call at the stream offset the
+         earlier calls left, then the exchange.  mode / labels / pads select
+         the label expansion as in op 0 (the table is looked up by label VALUE).
+         -> ((1 (rs...) (us...)) | (-1 code) ...)   one entry per call  *)
 From Coq Require Import ZArith NArith List Bool.
-From Mpc Require Import Gen.Consts Base.Sx Base.Codec Base.Label OT.Vole OT.Fx.
+From Mpc Require Import Gen.Consts Base.Sx Base.Codec Base.Label OT.Vole OT.Fx OT.VoleHist.
 Import ListNotations.
 Open Scope Z_scope.
 
@@ -44,6 +54,21 @@ Definition run_vole (inp : sx) : sx :=
           ofLZ (vo_us o)]
   end.
 
+Definition run_vole_history (inp : sx) : sx :=
+  let mode := getZ (nthx 1 inp) in
+  let delta := getN (nthx 2 inp) in
+  let g0 := cols_fn (map getLN (getL (nthx 3 inp))) in
+  let g1 := cols_fn (map getLN (getL (nthx 4 inp))) in
+  let labels := getLN (nthx 5 inp) in
+  let pads := getLN (nthx 6 inp) in
+  let calls := map (fun c => (getLZ (nthx 1 c), getLZ (nthx 2 c), getZ (nthx 0 c))) (getL (nthx 7 inp)) in
+  let expand := if mode =? 1 then expand_aes else expand_table (combine labels pads) in
+  SL (map (fun r => match r with
+                    | VErr c => sx_err c
+                    | VOk o => SL [SZ 1; ofLZ (vo_rs o); ofLZ (vo_us o)]
+                    end)
+          (vole_history g0 g1 delta expand (0%nat, 0%nat) calls)).
+
 Definition run_c20 (inp : sx) : sx :=
   let op := getZ (nthx 0 inp) in
   if op =? 0 then run_vole inp
@@ -61,4 +86,5 @@ Definition run_c20 (inp : sx) : sx :=
   else if op =? 5 then
     SL (map (fun m => SL [SZ (receiver_traffic m); SZ (sender_traffic m);
                           ofLZ (iknp_chunks (Z.to_nat m) m)]) (getLZ (nthx 1 inp)))
+  else if op =? 6 then run_vole_history inp
   else sx_err 99.
